@@ -97,6 +97,7 @@ type Conn struct {
 	// return the queued error (n > 0 together with io.EOF / a read error), which
 	// the io.Reader contract allows and e.g. crypto/tls does.
 	ErrWithData bool
+	toMark      map[*byte]bool
 	ReadCalls   int
 	ReadBytes   int
 	closedCh    chan struct{}
@@ -117,6 +118,24 @@ func (c *Conn) Feed(frags ...[]byte) {
 			c.in = append(c.in, append([]byte(nil), f...))
 		}
 	}
+	c.mu.Unlock()
+	c.cond.Broadcast()
+}
+
+// FeedWithTimeout queues a fragment; the Read that hands over its last byte also reports a
+// time-out, once (n > 0 together with a net.Error whose Timeout() is true, as the io.Reader
+// contract allows: the deadline passed while the data was on its way up).
+func (c *Conn) FeedWithTimeout(frag []byte) {
+	if len(frag) == 0 {
+		return
+	}
+	f := append([]byte(nil), frag...)
+	c.mu.Lock()
+	if c.toMark == nil {
+		c.toMark = map[*byte]bool{}
+	}
+	c.toMark[&f[len(f)-1]] = true
+	c.in = append(c.in, f)
 	c.mu.Unlock()
 	c.cond.Broadcast()
 }
@@ -192,7 +211,13 @@ func (c *Conn) Read(p []byte) (int, error) {
 	if len(c.in) > 0 {
 		n := copy(p, c.in[0])
 		if n == len(c.in[0]) {
+			last := &c.in[0][n-1]
 			c.in = c.in[1:]
+			if c.toMark[last] {
+				delete(c.toMark, last)
+				c.ReadBytes += n
+				return n, TimeoutError{}
+			}
 		} else {
 			c.in[0] = c.in[0][n:]
 		}
@@ -406,6 +431,7 @@ func (c *Conn) SetReadDeadline(t time.Time) error {
 	c.cond.Broadcast()
 	return nil
 }
+
 // SetWriteDeadline: a Write that is stalled (Outcome.StallFor) when the deadline passes returns
 // the bytes accepted so far and a time-out, like a socket whose send buffer stays full.
 func (c *Conn) SetWriteDeadline(t time.Time) error {
